@@ -1034,4 +1034,51 @@ EXTRA = [
     M('M-C14c-combine-non-adjacent', 'mapproxy/service/wms.py', "combined = combined_layers[-1].combined_layer(current_layer, query)",
       "combined = combined_layers[0].combined_layer(current_layer, query)", 'C14.c'),
     M('M-C14d-insert-front', 'mapproxy/image/merge.py', "            self.layers.append((img, coverage))", "            self.layers.insert(0, (img, coverage))", 'C14.d|C10.d'),
+    # ---------------------------------------------------------------- C18
+    M('M-C18a-reraise', 'mapproxy/wsgiapp.py', """                        if self.base_config.debug_mode:
+                            raise
+                        else:""", """                        if True:
+                            raise
+                        else:""", 'C18.a'),
+    M('M-C18a-no-catch-all', 'mapproxy/wsgiapp.py', """                    except Exception:
+                        if self.base_config.debug_mode:""", """                    except KeyError:
+                        if self.base_config.debug_mode:""", 'C18.a'),
+    M('M-C18a-server-no-render', 'mapproxy/service/base.py', """        except RequestError as e:
+            return e.render()""", """        except RequestError as e:
+            raise""", 'C18.a'),
+    E('E-C18a-extra-log', 'mapproxy/wsgiapp.py', """                            import traceback
+                            traceback.print_exc(file=environ['wsgi.errors'])""", """                            import traceback
+                            log_wsgiapp.error('handler %s failed', handler_name)
+                            traceback.print_exc(file=environ['wsgi.errors'])""", 'log call added'),
+    M('M-C18b-no-escape-xml', 'mapproxy/exception.py', """        # escape &<> in error message (e.g. URL params)
+        msg = escape(request_error.msg)
+        result = self.template.substitute(exception=msg,
+                                          code=request_error.code)""", """        # escape &<> in error message (e.g. URL params)
+        msg = request_error.msg
+        result = self.template.substitute(exception=msg,
+                                          code=request_error.code)""", 'C18.b'),
+    M('M-C18b-ows-no-escape', 'mapproxy/exception.py', """        msg = escape(request_error.msg)
+        result = self.template.substitute(exception=msg,
+                                          code=request_error.code, locator=request_error.locator)""", """        msg = str(request_error.msg)
+        result = self.template.substitute(exception=msg,
+                                          code=request_error.code, locator=request_error.locator)""", 'C18.b'),
+    E('E-C18b-inline-escape', 'mapproxy/exception.py', """        msg = escape(request_error.msg)
+        result = self.template.substitute(exception=msg,
+                                          code=request_error.code, locator=request_error.locator)""", """        result = self.template.substitute(exception=escape(request_error.msg),
+                                          code=request_error.code, locator=request_error.locator)""", 'escape inlined'),
+    M('M-C18c-code-from-request', 'mapproxy/service/wms.py', """            raise RequestError('unknown layer: ' + request.params.layer,
+                               code='LayerNotDefined', request=request)""", """            raise RequestError('unknown layer: ' + request.params.layer,
+                               code=request.params.layer, request=request)""", 'C18.c'),
+    M('M-C18c-new-placeholder', 'mapproxy/service/templates/wms111exception.xml', "{{exception}}</ServiceException>", "{{exception}} {{request}}</ServiceException>", 'C18.c'),
+    M('M-C18c-locator-from-request', 'mapproxy/service/ows.py', "code='InvalidParameterValue', request=req, locator='service', status=400)",
+      "code='InvalidParameterValue', request=req, locator=service, status=400)", 'C18.c'),
+    E('E-C18c-keyword-order', 'mapproxy/service/ows.py', "code='InvalidParameterValue', request=req, locator='service', status=400)",
+      "request=req, locator='service', code='InvalidParameterValue', status=400)", 'keyword order changed'),
+    M('M-C18d-index-no-escape', 'mapproxy/multiapp.py', "url = escape_html(req.script_url)", "url = req.script_url", 'C18.d'),
+    M('M-C18d-demo-format-unescaped', 'mapproxy/service/demo.py', """                                   image_formats=self.image_formats,
+                                   format=escape_html(req.args['format']),""", """                                   image_formats=self.image_formats,
+                                   format=req.args['format'],""", 'C18.d'),
+    M('M-C18d-escape-html-keeps-quotes', 'mapproxy/util/escape.py', """    data = data.replace('"', '')\n""", "", 'C18.d'),
+    M('M-C18e-plain-as-html', 'mapproxy/exception.py', "class PlainExceptionHandler(ExceptionHandler):\n    mimetype = 'text/plain'", "class PlainExceptionHandler(ExceptionHandler):\n    mimetype = 'text/html'", 'C18.e'),
+    M('M-C18g-status-418', 'mapproxy/request/tile.py', "    mimetype = 'text/xml'\n    status_code = 404", "    mimetype = 'text/xml'\n    status_code = 418", 'C18.g'),
 ]
